@@ -1,5 +1,5 @@
 """property id -> rules"""
-from rules import task_constraints, tasks, optional, logic
+from rules import task_constraints, tasks, optional, logic, resources
 from sa.selftest import self_test_rule
 
 NOTES = ("Every check decides structural clauses (necessary conditions) of its property from /repo's source as parsed on "
@@ -8,6 +8,25 @@ NOTES = ("Every check decides structural clauses (necessary conditions) of its p
 NOT_APPLICABLE = {}
 
 PROPERTIES = {
+    "C02": {
+        "rules": resources.RULES,
+        "thorough": [self_test_rule("C02")],
+        "level_text": "The capacity argument is decided structurally for all problems: (1) the solver asserts, for every "
+                      "worker of the unfiltered registry and every unordered pair of its busy intervals, a term that is "
+                      "order-type-equivalent to 'the two half-open intervals do not overlap'; (2) add_required_resource stores "
+                      "exactly one (start, end) busy pair per worker and ties it to the task span per resource kind (static "
+                      "with delay-in/early-out, dynamic with a non-negative span, alternative: selected => task span, else one "
+                      "unique negative point) and asserts the selection's cardinality; (3) SelectWorkers builds Pb(kind) over "
+                      "the flags of its whole list with the declared count; (4) a cumulative worker is `size` registered unit "
+                      "workers and each use selects >= 1 of them; (5) negative points are strictly negative and never reused; "
+                      "(6) the work-amount sum ranges over all required resources and is guarded for optional tasks.",
+        "level_note": "Capacity of a cumulative worker follows from (1),(3),(4) by a pigeonhole argument that is stated in "
+                      "DESIGN.md, not machine-checked. _distribute_p_over_n arithmetic is not analysed (it self-checks at run "
+                      "time). Trusted: z3, pydantic.",
+        "explanation": "Static analysis of task.py / resource.py / problem.py / solver.py on the extracted IR: pair-loop shape "
+                       "and order-type equivalence of the non-overlap term, per-kind busy-interval binding, Pb tables, negative "
+                       "point counters, cumulative expansion, work-amount term.",
+    },
     "C10": {
         "rules": logic.RULES,
         "thorough": [self_test_rule("C10")],
